@@ -45,6 +45,8 @@ CHECKS = {
     },
     "C12": {
         "pkg": "c12", "race": True,
+        # a local time zone with daylight saving: calendar arithmetic in time.Local (AddDate) differs from durations
+        "env": {"TZ": "Europe/Zurich"},
         "rule": "rapid-generated Current/Get/advance/burst sequences on the real provider under virtual time (synctest), race detector on.",
         "assumptions": ["virtual time of testing/synctest stands for the wall clock the provider reads", "goroutine interleavings inside a burst are those the Go scheduler produces"],
         "timeout_quick": 400, "timeout_thorough": 1800,
@@ -89,6 +91,8 @@ CHECKS = {
     },
     "C20": {
         "pkg": "c20", "shards": 8,
+        # c20d: where the NTP request goes after the exchange (fixed ports on loopback: one process only)
+        "parts": [{"pkg": "c20"}, {"pkg": "c20d", "shards": 1}],
         "rule": "rapid state machine of FetchData calls on the real fetcher against a scripted TLS key-exchange server; truncation sweep.",
         "assumptions": ["TLS 1.3 with a run-time self-signed certificate and InsecureSkipVerify (certificate validation is configuration of the callers)", "AEAD records carry one algorithm id; warning records are not judged (a client may treat them as errors)", "QUIC/SCION transport of the key exchange is not exercised"],
         "timeout_quick": 600, "timeout_thorough": 2400,
